@@ -57,14 +57,12 @@ theorem reverse_lsb0_mirror (l : Bits) (start stop : Option Int) :
 
 /-! ### byteswap -/
 
-/-- `byteswap` mirrors whenever every swapped pattern lies inside the bitstring (always so with `repeat=True`;
-    a single pattern running past the end of the data is the msb0 defect of property C03, excluded here). -/
-theorem byteswap_lsb0_mirror (l : Bits) (fmt : Option (List Int)) (start stop : Option Int) (repeat_ : Bool)
-    (hfit : repeat_ = true ∨ ∀ a b zs, validateSlice l.length start stop = .ok (a, b) → fmt = some zs →
-      a + 8 * (zs.map Int.toNat).sum ≤ l.length) :
+/-- `byteswap` (fmt None / an int / a list of ints, with and without `repeat`) mirrors for every start, end and
+    length: every swapped pattern lies inside `[start, end)`, whole bytes are reversed as whole bytes. -/
+theorem byteswap_lsb0_mirror (l : Bits) (fmt : Option (List Int)) (start stop : Option Int) (repeat_ : Bool) :
     byteswapOp .lsb0 l fmt start stop repeat_
       = (byteswapOp .msb0 l.reverse fmt start stop repeat_).map fun r => (r.1, r.2.reverse) := by
-  exact byteswapOp_mirror l fmt start stop repeat_ hfit
+  exact byteswapOp_mirror l fmt start stop repeat_
 
 /-! ### rotations and shifts: the direction is kept relative to the most significant end -/
 
